@@ -93,7 +93,7 @@ func TestVerifC26(t *testing.T) {
 		{"rewrite-exclude", "tag-add", "tag-set"},
 		{"rewrite-exclude"}, // 5 snapshots with identical trees: a failed pack upload must not break the later ones
 	}
-	n := env.Pick(20, 500)
+	n := env.Pick(20, 160)
 	for i := 0; i < n; i++ {
 		if !env.Mine(i) {
 			continue
